@@ -6,11 +6,15 @@
      Spec ladder operator, for both spins, creation and annihilation             : C01_iota_ladder
    * hence for every operator string (any length, any order, repeated indices)   : C01_iota_term
      — the same ι for every sector and every string: "one fixed sign convention".
-  The dense routes (tensor foldings) are tied to the same Spec by the exact correspondence run;
-  their folding identities are not yet proved (DESIGN.md §5 C01).
+   * the folding the dense 1+2-body kernels rest on (`h1e -= einsum('ikkj->ij', g)`, `g = -moveaxis(h2e, 1, 2)`,
+     then products of single excitations): p† q† r s = δ_qr p† s − (p† r)(q† s) on every determinant,
+     as an identity of signed results and as an identity of all matrix elements   : C01_two_body_fold(_eval)
+  The dense routes are otherwise tied to the same Spec by the exact correspondence run; the foldings of
+  the three- and four-body kernels are not proved (DESIGN.md §5 C01).
 -/
 import FqeVerif.Lemmas.Embed
 import FqeVerif.Lemmas.Car
+import FqeVerif.Lemmas.TermAlgebra
 import FqeVerif.Model.Term
 namespace C01
 open Fock Model
@@ -113,5 +117,64 @@ example : TermOk 2 [(1, true), (3, false)] ∧
   intro f hf
   simp at hf
   rcases hf with rfl | rfl <;> decide
+
+/-- matrix element `⟨f| r⟩` of a signed single-determinant result against an arbitrary integer-valued bra -/
+def evalRes (f : Nat → Nat → Int) (r : Option (Bool × Nat × Nat)) : Int :=
+  match r with
+  | none => 0
+  | some (s, a, b) => if s then - f a b else f a b
+
+theorem evalRes_negRes (f : Nat → Nat → Int) (r : Option (Bool × Nat × Nat)) :
+    evalRes f (negRes r) = - evalRes f r := by
+  unfold evalRes negRes
+  cases r with
+  | none => rfl
+  | some x =>
+    obtain ⟨s, a, b⟩ := x
+    cases s <;> simp
+
+/-- the two-body folding used by every dense kernel, on every determinant `|a,b⟩` and for any four modes:
+    `q ≠ r`: `p† q† r s = −(p† r)(q† s)`;
+    `q = r`: exactly one of `p† q† q s`, `(p† q)(q† s)` survives and it equals `p† s` -/
+theorem C01_two_body_fold (p q r s a b : Nat) :
+    (q ≠ r → applyTerm [(p, true), (q, true), (r, false), (s, false)] a b =
+        negRes (thenApply [(p, true), (r, false)] (applyTerm [(q, true), (s, false)] a b))) ∧
+    (q = r →
+      (applyTerm [(p, true), (q, true), (r, false), (s, false)] a b = applyTerm [(p, true), (s, false)] a b ∧
+        thenApply [(p, true), (r, false)] (applyTerm [(q, true), (s, false)] a b) = none) ∨
+      (applyTerm [(p, true), (q, true), (r, false), (s, false)] a b = none ∧
+        thenApply [(p, true), (r, false)] (applyTerm [(q, true), (s, false)] a b) =
+          applyTerm [(p, true), (s, false)] a b)) := by
+  have happ : thenApply [(p, true), (r, false)] (applyTerm [(q, true), (s, false)] a b) =
+      applyTerm ([(p, true)] ++ [(r, false), (q, true)] ++ [(s, false)]) a b := by
+    rw [← applyTerm_append]; rfl
+  constructor
+  · intro hne
+    rw [happ]
+    exact term_swap [(p, true)] [(s, false)] true false q r a b hne
+  · intro he
+    subst he
+    rw [happ]
+    rcases term_contract [(p, true)] [(s, false)] q a b with ⟨h1, h2⟩ | ⟨h1, h2⟩
+    · right
+      exact ⟨h2, h1⟩
+    · left
+      exact ⟨h2, h1⟩
+
+/-- the same as an identity of all matrix elements: `⟨f| p† q† r s |a,b⟩ = δ_qr ⟨f| p† s |a,b⟩ − ⟨f| (p† r)(q† s) |a,b⟩` -/
+theorem C01_two_body_fold_eval (f : Nat → Nat → Int) (p q r s a b : Nat) :
+    evalRes f (applyTerm [(p, true), (q, true), (r, false), (s, false)] a b) =
+      (if q = r then evalRes f (applyTerm [(p, true), (s, false)] a b) else 0) -
+        evalRes f (thenApply [(p, true), (r, false)] (applyTerm [(q, true), (s, false)] a b)) := by
+  obtain ⟨h1, h2⟩ := C01_two_body_fold p q r s a b
+  by_cases h : q = r
+  · rcases h2 h with ⟨x, y⟩ | ⟨x, y⟩
+    · rw [x, y]; simp [h, evalRes]
+    · rw [x, y]; simp [h, evalRes]
+  · rw [h1 h, evalRes_negRes]; simp [h]
+
+example : applyTerm [(0, true), (2, true), (2, false), (4, false)] 0b110 0 = some (true, 0b011, 0) ∧
+    applyTerm [(0, true), (4, false)] 0b110 0 = some (true, 0b011, 0) ∧
+    applyTerm [(0, true), (6, true), (2, false), (4, false)] 0b110 0 ≠ none := by decide
 
 end C01
